@@ -1,0 +1,48 @@
+//go:build verif
+
+// Package verifhook provides named scheduling points and a clock override for the
+// verification harness. This file is only compiled with -tags verif.
+package verifhook
+
+import "sync"
+
+var (
+	mu      sync.RWMutex
+	pointFn func(string)
+	nowFn   func() (int64, bool)
+)
+
+// SetPoint installs the callback invoked at every named scheduling point
+func SetPoint(f func(string)) {
+	mu.Lock()
+	pointFn = f
+	mu.Unlock()
+}
+
+// SetNow installs the clock override
+func SetNow(f func() (int64, bool)) {
+	mu.Lock()
+	nowFn = f
+	mu.Unlock()
+}
+
+// Point marks a named scheduling point
+func Point(name string) {
+	mu.RLock()
+	f := pointFn
+	mu.RUnlock()
+	if f != nil {
+		f(name)
+	}
+}
+
+// Now returns an overriding clock value if one is installed
+func Now() (int64, bool) {
+	mu.RLock()
+	f := nowFn
+	mu.RUnlock()
+	if f != nil {
+		return f()
+	}
+	return 0, false
+}
